@@ -184,6 +184,19 @@ structure Meta where
 def correctMeta (src : Meta) (dstDimensions dstOrigin : List Rat) : Meta :=
   { src with dimensions := dstDimensions, origin := dstOrigin }
 
+/-- wrapping an array of numbers in a point type: Coordinate keeps them, Voxel rounds (`rnd`), VoxelCenter rounds and adds ½ -/
+def wrapPoint2 (mode : Mode) (rnd : Rounding) (v : V2 Rat) : V2 Rat :=
+  match mode with
+  | .coord => v
+  | .voxel => ⟨(rnd.app v.x : Rat), (rnd.app v.y : Rat)⟩
+  | .center => ⟨(rnd.app v.x : Rat) + half, (rnd.app v.y : Rat) + half⟩
+
+/-- `BaseTransformation.__call__` on a typed point / point set: `call_array`, result wrapped in the OUTPUT point type (the
+same for single points and for arrays of points) -/
+def typedCall2 (outMode : Mode) (rnd : Rounding) (T : Affine2 Rat) (x : V2 Rat) : V2 Rat := wrapPoint2 outMode rnd (T.call x)
+/-- `BaseTransformation.inverse`: `inverse_array`, result wrapped in the INPUT point type -/
+def typedInverse2 (inMode : Mode) (rnd : Rounding) (T : Affine2 Rat) (y : V2 Rat) : V2 Rat := wrapPoint2 inMode rnd (T.inverse y)
+
 /-- `CoordinateTransformation.__call__`: `type(image)(affine_correction(image).img, **correct_metadata(image))` — the
 result has the class of the input (`kind`: 0 Image, 1 ScalarImage, 2 OpticalImage) and the corrected metadata -/
 def coordTransfCall (kind : Nat) (src : Meta) (dstDimensions dstOrigin : List Rat) : Nat × Meta :=
